@@ -19,6 +19,7 @@ type Driver struct {
 	PByz        float64 // per block
 	PTimeJump   float64
 	PAbsentRun  float64
+	PRestart    float64 // probability of a process restart before a block (memdb nodes)
 	PReplay     float64 // probability that a slot re-delivers earlier bytes instead of a new tx
 	pool        []replayItem
 	PostTx      func(i int, tx []byte, meta *TxMeta, code uint32) // optional observer
@@ -71,6 +72,9 @@ func (d *Driver) NextReq() *BlockReq {
 
 // Block generates and executes one block.
 func (d *Driver) Block() *BlockRes {
+	if d.PRestart > 0 && d.R.Float64() < d.PRestart {
+		d.S.Restart()
+	}
 	req := d.NextReq()
 	n := d.R.Intn(d.MaxTxs + 1)
 	return d.S.RunBlock(req, nil, func(i int) ([]byte, TxMeta, bool) {
